@@ -122,6 +122,7 @@ type FuncSpec struct {
 	CallersNeed []string // properties under which every module function calling this one must itself be under contract
 	Waive     []string // obligations of this function whose name contains one of these labels are not generated (documented gaps)
 	NoSweep   []string // sweep kinds not generated for this function (reason goes to DESIGN.md / evidence)
+	Records   [][2]string // (ghost, parameter or retN): the engine stores that value in the ghost at every call
 	Counted   []string // ghost counters bumped by the engine at every call of this function
 	Helper    bool // internal helper: type invariants are neither assumed nor checked at its boundary
 }
@@ -633,7 +634,7 @@ var clauseKeywords = map[string]bool{
 	"pred": true, "fun": true, "lemma": true, "ghost": true, "func": true, "extern": true, "type": true,
 	"callspec": true, "requires": true, "ensures": true, "modifies": true, "pure": true, "function": true, "inline": true,
 	"trusted": true, "loop": true, "before": true, "sweep": true, "guarded": true, "final": true, "atomic": true,
-	"confined": true, "private": true, "owns": true, "init": true, "holds": true, "helper": true, "counted": true, "sweepscope": true, "nosweep": true, "waive": true, "callers-need-contract": true, "hb-by-channel": true, "invariant": true, "ctor": true, "params": true, "fresh": true, "end": true,
+	"confined": true, "private": true, "owns": true, "init": true, "holds": true, "helper": true, "counted": true, "records": true, "sweepscope": true, "nosweep": true, "waive": true, "callers-need-contract": true, "hb-by-channel": true, "invariant": true, "ctor": true, "params": true, "fresh": true, "end": true,
 }
 
 type rawClause struct {
@@ -946,6 +947,12 @@ func parseSpecFile(path string, pkgPath string) (*SpecFile, error) {
 		case "nosweep":
 			if curF != nil {
 				curF.NoSweep = append(curF.NoSweep, splitNames(rest)...)
+			}
+		case "records":
+			// records <ghost> <param|retN>
+			if f := target(); f != nil {
+				g, v := splitFirst(rest)
+				f.Records = append(f.Records, [2]string{g, strings.TrimSpace(v)})
 			}
 		case "counted":
 			if f := target(); f != nil {
